@@ -26,6 +26,7 @@ type Case struct {
 	Xr  string `json:"xr,omitempty"` // how x is bound: tovalue | ftv
 	Sr  string `json:"sr,omitempty"` // how s is bound: go | lit
 	Cls string `json:"cls,omitempty"`
+	Ops []Case `json:"ops,omitempty"` // k="seq": steps run in order on the one runtime of this process
 }
 
 const nanBits = uint64(0x7FF8000000000000)
@@ -146,6 +147,25 @@ func bindS(c *Case) {
 }
 
 func runCase(c Case) vh.Record {
+	if c.K == "seq" {
+		var terms, obs []string
+		tagset := map[string]bool{"k:seq": true}
+		nt := false
+		for _, op := range c.Ops {
+			r := runCase(op)
+			terms = append(terms, "("+r.Coq+")")
+			obs = append(obs, r.Obs)
+			for _, t := range r.Tags {
+				tagset["seq-"+t] = true
+			}
+			nt = nt || r.Nontrivial
+		}
+		var tl []string
+		for t := range tagset {
+			tl = append(tl, t)
+		}
+		return vh.Record{Case: vh.MustJSON(c), Coq: "CSeq " + vh.CoqList(terms), Obs: trunc(strings.Join(obs, " ;; ")), Tags: tl, Nontrivial: nt}
+	}
 	var bits uint64
 	var x float64
 	if c.B != "" {
@@ -911,7 +931,52 @@ func withSeparators(r *vh.Rng, s string) string {
 	return sb.String()
 }
 
+// big-number path: decimal exponents spread over +-(20..308) with more digits than the fast path delivers
+func bigPathStep(r *vh.Rng) Case {
+	d := 1 + r.U64()%99999999999999999
+	e := 20 + r.Intn(289)
+	if r.Chance(30) {
+		e = 256 + r.Intn(53)
+	}
+	if r.Bool() {
+		e = -e
+	}
+	x, _ := strconv.ParseFloat(fmt.Sprintf("%de%d", d, e-17), 64)
+	if math.IsInf(x, 0) || x == 0 {
+		x = 1e300
+	}
+	if r.Chance(25) {
+		x = -x
+	}
+	c := Case{B: strconv.FormatUint(canonBits(x), 10), Cls: "bigpath", Xr: pick(r, []string{"tovalue", "ftv"})}
+	switch r.Pick(35, 35, 20, 10) {
+	case 0:
+		c.K, c.P = "exp", int64(17+r.Intn(5))
+	case 1:
+		c.K, c.P = "prec", int64(18+r.Intn(5))
+	case 2:
+		c.K, c.P = "fixed", int64(r.Intn(101))
+	default:
+		c.K = "str"
+	}
+	if r.Chance(10) && c.K != "str" {
+		c.P = int64(22 + r.Intn(79))
+	}
+	c.Sf = pick(r, []string{"js", "ftoa"})
+	if c.K == "str" {
+		c.Sf = pick(r, []string{"ftoa", "String"})
+	}
+	return c
+}
+
 func genCase(r *vh.Rng) Case {
+	if r.Chance(3) {
+		c := Case{K: "seq", Sf: "seq", Cls: "bigpath"}
+		for i := 0; i < 6; i++ {
+			c.Ops = append(c.Ops, bigPathStep(r))
+		}
+		return c
+	}
 	c := Case{}
 	k := r.Pick(18, 3, 14, 8, 10, 8, 3, 16, 6, 9, 9)
 	c.K = []string{"str", "exps", "fixed", "exp", "prec", "radix", "round", "num", "pf", "pi", "lit"}[k]
